@@ -12,7 +12,7 @@ PROLOGUE = (
     "from Reduino import target\n"
     'target("COM3")\n'
     "from Reduino.Communication import SerialMonitor\n"
-    "from Reduino.Core import analog_read, digital_read\n"
+    "from Reduino.Core import analog_read, digital_read, digital_write, analog_write, pin_mode, OUTPUT, INPUT, HIGH, LOW\n"
     "from Reduino.Utils import sleep\n"
     "mon = SerialMonitor(9600)\n"
 )
